@@ -69,7 +69,11 @@ ASSUMPTIONS = [
     "are all 6000 x 4800 (50 x 40 degrees)",
     "download faults: urllib.request.urlopen is replaced by a harness "
     "function; how a broken transfer surfaces is not prescribed (the "
-    "injected ConnectionResetError or an internal retry are both accepted), "
+    "injected error - ConnectionResetError in the middle of a transfer, "
+    "URLError / HTTPError / TimeoutError / ConnectionRefusedError at "
+    "connection time - or an internal retry are both accepted, but a "
+    "returned result must be the exact mosaic and all its tiles must then "
+    "be in the cache directory), "
     "only that cached tiles are never transferred, that a tile without "
     ".DEM in the directory is delivered correctly by the next undisturbed "
     "request, and that an intact left-over archive may be reused",
@@ -1022,14 +1026,17 @@ def tile_archive(k):
 class FakeResponse:
     """what urlopen returns: delivers `data`, or breaks off after `cut` bytes"""
 
-    def __init__(self, data, cut=None):
+    def __init__(self, data, cut=None, injected=None):
         self.data, self.cut, self.pos = data, cut, 0
+        self.injected = injected if injected is not None else []
 
     def read(self, size=-1):
         end = len(self.data) if self.cut is None else self.cut
         if self.cut is not None and self.pos >= end:
-            raise InjectedFault("connection reset by peer after %d bytes"
+            exc = InjectedFault("connection reset by peer after %d bytes"
                                 % self.pos)
+            self.injected.append(exc)
+            raise exc
         if size is None or size < 0:
             size = end - self.pos
         chunk = self.data[self.pos:min(self.pos + size, end)]
@@ -1064,7 +1071,10 @@ def check_cache(case, ctx):
     orig_urlopen = urllib.request.urlopen
     downloads = []
     net = case.get("net")          # None: download_tile replaced by a counter
-    faults = {int(k): int(v) for k, v in net["faults"]} if net else {}
+    # transfer number -> permille of the archive after which the transfer
+    # breaks off (int), or the way the connection fails (str)
+    faults = {int(k): v for k, v in net["faults"]} if net else {}
+    injected = []                  # exception objects raised by the network
     broken = []                    # names whose transfer was cut
 
     def urlopen(url, *args, **kwargs):
@@ -1078,7 +1088,23 @@ def check_cache(case, ctx):
         data = tile_archive(hit[0])
         if n in faults:
             broken.append(TILES[hit[0]][0])
-            return FakeResponse(data, len(data) * faults[n] // 1000)
+            how = faults[n]
+            if isinstance(how, str):
+                # no connection: nothing is transferred at all
+                ctx.label("connect-fails-" + how)
+                exc = {
+                    "url": lambda: urllib.error.URLError(
+                        OSError(101, "Network is unreachable")),
+                    "http": lambda: urllib.error.HTTPError(
+                        str(url), 503, "Service Unavailable", None, None),
+                    "timeout": lambda: TimeoutError("timed out"),
+                    "refused": lambda: ConnectionRefusedError(
+                        111, "Connection refused"),
+                }[how]()
+                injected.append(exc)
+                raise exc
+            ctx.label("transfer-cut")
+            return FakeResponse(data, len(data) * int(how) // 1000, injected)
         return FakeResponse(data)
 
     def download_tile(name):
@@ -1170,7 +1196,9 @@ def check_cache(case, ctx):
                 may_idx = needed_idx = [k]
                 try:
                     arr = SRTM30.get_tile(name)
-                except InjectedFault:
+                except OSError as exc:
+                    if not any(exc is e for e in injected):
+                        raise
                     failed = True
                 if not failed:
                     arr = np.asarray(arr)
@@ -1211,7 +1239,9 @@ def check_cache(case, ctx):
                 try:
                     lats, lons, elev = SRTM30.elevation(lat_min, lon_min,
                                                         lat_max, lon_max)
-                except InjectedFault:
+                except OSError as exc:
+                    if not any(exc is e for e in injected):
+                        raise
                     failed = True
                 if not failed:
                     rect = Rect({"lat_min": lat_min, "lat_max": lat_max,
@@ -1253,6 +1283,18 @@ def check_cache(case, ctx):
                           lambda: "step %d %r: transfers %r" % (step, op, new))
                 done = set(new) - set(cut)
                 if not failed:
+                    # a result was returned: every tile it is made of must
+                    # have been obtained after all (never data for a tile
+                    # that could not be fetched)
+                    lacking = [TILES[i][0] for i in needed_idx
+                               if not os.path.exists(os.path.join(
+                                   cache_dir, TILES[i][0].upper() + ".DEM"))]
+                    ctx.check(not lacking,
+                              "cache/result-although-tile-not-obtained",
+                              lambda: "step %d %r returned a result although "
+                              "the download of %r failed (%r) and %r is not "
+                              "in the cache directory" % (
+                                  step, op, cut, injected[-1:], lacking))
                     done |= {TILES[i][0] for i in needed_idx}
                 else:
                     retry_pending.update(cut)
@@ -1359,9 +1401,11 @@ def download_cases(draw):
     ops = [first] + draw(st.lists(op, min_size=0, max_size=4)) \
         + [{"op": "get", "tile": first["tile"]}]
     cut = st.one_of(st.sampled_from([0, 1, 500, 999]), st.integers(0, 999))
-    faults = draw(st.dictionaries(st.integers(1, 3), cut, max_size=1))
+    how = st.booleans().flatmap(lambda b: st.sampled_from(
+        ["url", "url", "http", "timeout", "refused"]) if b else cut)
+    faults = draw(st.dictionaries(st.integers(1, 3), how, max_size=1))
     if draw(st.integers(0, 5)) > 0:
-        faults[0] = draw(cut)
+        faults[0] = draw(how)
     return {"mode": mode, "warm": sorted(warm), "ops": ops,
             "xdg_too": draw(st.booleans()),
             "net": {"faults": sorted([k, v] for k, v in faults.items())}}
